@@ -1,5 +1,6 @@
 import Harper.Driver.Lex
 import Harper.Model.LexExt
+import Harper.Model.DocFull
 namespace Harper.Driver.LexExt
 open Harper Harper.Proto Harper.Driver.Lex
 
@@ -27,6 +28,21 @@ def handleExtLex (args : List String) : String :=
     match charsOf cs with
     | some s =>
       s!"ok url={showLen ((lexUrl s).map (·.2))} email={showLen ((lexEmailAddress s).map (·.2))} host={showLen ((lexHostnameToken s).map (·.2))} hostname={showLen (lexHostname s)}"
+    | none => "bad-op"
+  | _ => "bad-op"
+
+end Harper.Driver.LexExt
+namespace Harper.Driver.LexExt
+open Harper Harper.Proto Harper.Driver.Lex
+
+/-- `docfull | cp:flags …` → tokens of `Document::new(text, &PlainEnglish, _)`, the url / e-mail /
+hostname lexers computed by the model (`documentFull`), no external table. Same output format as
+`doc`; the same text under op `doc` carries the real lexers' answers as a third group. -/
+def handleDocFull (args : List String) : String :=
+  match splitAt "|" args with
+  | [[], cs] =>
+    match cs.mapM parseCh with
+    | some chs => showTokResult (documentFull (clsOf (dedupTab chs)) (chs.map (·.1)))
     | none => "bad-op"
   | _ => "bad-op"
 
